@@ -231,7 +231,10 @@ class Run:
         vac = []
         if self.level == "proof" and n_obl == 0:
             vac.append("zero proof obligations generated")
-        if n_obl < self.vacuity_min_obligs:
+        stale = [u for u in self.undecided if "stale contract" in str(u.get("detail")) or "outside subset" in str(u.get("detail"))]
+        if n_obl < self.vacuity_min_obligs and not stale:
+            # (a contract that no longer matches the code - renamed locals, changed loop structure - generates few obligations by construction: that is
+            # reported as UNDECIDED, not as a vacuous run)
             vac.append(f"only {n_obl} obligations generated, expected at least {self.vacuity_min_obligs}")
         if self.level in ("exploration", "fault_enumeration") and (evals < 1 or distinct < 2):
             vac.append(f"bounded part vacuous: evaluations={evals} distinct_nontrivial={distinct}")
